@@ -1,0 +1,19 @@
+//go:build verif
+
+package variable
+
+// Contracts for value.go and in_memory_storer.go. Comment-only: read by the verifier in /verif/govc.
+// The abstraction absval / wfVal / display lives in /verif/spec/values.spec.
+//
+//@ func NewNumber(number float64) (res *Value)
+//@   ensures res != nil && fresh(res) && absval(res) == VNum(number)
+//@ func NewBoolean(boolean bool) (res *Value)
+//@   ensures res != nil && fresh(res) && absval(res) == VBool(boolean)
+//@ func NewString(str string) (res *Value)
+//@   ensures res != nil && fresh(res) && absval(res) == VStr(str)
+//
+//@ func (v *Value) ToString() (res string)
+//@   float ieee
+//@   requires wfVal(v)
+//@   carveout "D15": isVNum(absval(v)) ==> fitsInt(absval(v).n)
+//@   ensures "display": res == display(absval(v))
